@@ -26,6 +26,9 @@ pub struct C14Case {
     /// signing algorithm of the issuer(s)
     #[serde(default = "default_alg")]
     pub alg: Alg,
+    /// consecutive issuances alternate between the two serialisation formats
+    #[serde(default)]
+    pub alternate_format: bool,
 }
 
 fn default_alg() -> Alg {
@@ -81,6 +84,9 @@ pub fn check(case: &C14Case, st: &mut Stats) -> Verdict {
     st.label(if case.shared_issuer { "issuer=shared_behind_mutex" } else { "issuer=one_per_thread" });
     st.label(if case.same_claims { "claims=same_every_time" } else { "claims=varying" });
     st.label(&format!("decoys={}", case.decoys));
+    if case.alternate_format {
+        st.label("format=alternating");
+    }
     let shared = Arc::new(Mutex::new(sut::new_issuer(case.alg, KeyId::Primary)));
     st.label(&format!("alg={}", case.alg.name()));
     let case = Arc::new(case.clone());
@@ -93,7 +99,8 @@ pub fn check(case: &C14Case, st: &mut Stats) -> Verdict {
             let mut own = sut::new_issuer(case.alg, KeyId::Primary);
             for i in 0..case.per_thread {
                 let claims = if case.same_claims { &case.claims[0] } else { &case.claims[((t + i) as usize) % case.claims.len()] };
-                let spec = IssueSpec { claims: claims.clone(), strat: Strat::AllLevels, decoys: case.decoys, fmt: case.fmt, alg: case.alg, holder: HolderKey::None };
+                let fmt = if case.alternate_format && i % 2 == 1 { case.fmt.other() } else { case.fmt };
+                let spec = IssueSpec { claims: claims.clone(), strat: Strat::AllLevels, decoys: case.decoys, fmt, alg: case.alg, holder: HolderKey::None };
                 let out = if case.shared_issuer {
                     let mut g = shared.lock().unwrap_or_else(|e| e.into_inner());
                     sut::issue_with(&mut g, &spec)
@@ -101,7 +108,7 @@ pub fn check(case: &C14Case, st: &mut Stats) -> Verdict {
                     sut::issue_with(&mut own, &spec)
                 };
                 match out {
-                    Out::Ok(text) => harvest(&text, case.fmt, &mut col),
+                    Out::Ok(text) => harvest(&text, fmt, &mut col),
                     Out::Err(e) => col.problems.push(format!("issue_sd_jwt failed: {}", e)),
                     Out::Panic(p) => col.problems.push(format!("issue_sd_jwt panicked: {}", p)),
                 }
